@@ -6,6 +6,17 @@ From MevVerif Require Import lib.Bytes lib.Abi model.Registry.
 Import ListNotations.
 Open Scope N_scope.
 
+(* what was observed *)
+Inductive obsres :=
+| ObsBool (b : bool)                   (* Check... *)
+| ObsNum (v : option N)                (* getters: value, or None for an error *)
+| ObsReg (r : N)                       (* RegisterProvider/PrepayAllowance: 0 nil, 1 error, 2 panic *)
+| ObsSvc (code : N) (amount : option N) (* gRPC status code (0 OK, 3 InvalidArgument, 13 Internal;
+                                           99 = panic) and the amount of the response *)
+| ObsPack (packed : option bytes)
+| ObsUnpack (vals : option (list val))
+| ObsNone.                             (* sessions: the results are in the steps *)
+
 (* the operation run and the answers the scripted client holds ready (an answer that is never
    asked for is simply unused) *)
 Inductive opk :=
@@ -16,17 +27,10 @@ Inductive opk :=
 | OpSvcRegister (owner : bytes) (valid : bool) (parsed : option Z)
                 (s : sendres) (w : receiptres) (a_stake : callres)
 | OpAbiPack (args : list val)                    (* library correspondence: Arguments.Pack *)
-| OpAbiUnpack (tys : list ty) (data : bytes).    (* library correspondence: Arguments.Unpack *)
-
-(* what was observed *)
-Inductive obsres :=
-| ObsBool (b : bool)                   (* Check... *)
-| ObsNum (v : option N)                (* getters: value, or None for an error *)
-| ObsReg (r : N)                       (* RegisterProvider/PrepayAllowance: 0 nil, 1 error, 2 panic *)
-| ObsSvc (code : N) (amount : option N) (* gRPC status code (0 OK, 3 InvalidArgument, 13 Internal;
-                                           99 = panic) and the amount of the response *)
-| ObsPack (packed : option bytes)
-| ObsUnpack (vals : option (list val)).
+| OpAbiUnpack (tys : list ty) (data : bytes)     (* library correspondence: Arguments.Unpack *)
+(* several operations, one after the other, on ONE registry object: each step with the answers
+   the client holds at that moment, the requests recorded during that step and its result *)
+| OpSession (steps : list (opk * (list effect * obsres))).
 
 (* kind: 0 = provider registry, 1 = bidder registry.
    abi: for every method of the bindings' ABI JSON whose selector occurs in an observed request:
@@ -99,7 +103,7 @@ Definition outputs_uint256 (c : case) (name : bytes) (tys : list ty) : bool :=
   | None => false
   end.
 
-Definition agrees (c : case) : bool :=
+Definition agrees1 (c : case) : bool :=
   let kec := kec_of (abi c) in
   let cfg := cfg_of (kind c) in
   match op c with
@@ -137,6 +141,20 @@ Definition agrees (c : case) : bool :=
       | ObsUnpack None, None => true
       | _, _ => false
       end
+  | OpSession _ => false
+  end.
+
+(* one step of a session, seen as a case of its own (same registry, same tables) *)
+Definition sub (c : case) (st : opk * (list effect * obsres)) : case :=
+  {| id := id c; kind := kind c; reg := reg c; abi := abi c;
+     op := fst st; trace := fst (snd st); res := snd (snd st) |}.
+
+(* a session agrees when every step agrees with the model of the single operation run on the
+   answers of that step (model/Registry.v: [session] is the map of [run_request]) *)
+Definition agrees (c : case) : bool :=
+  match op c with
+  | OpSession steps => forallb (fun st => agrees1 (sub c st)) steps
+  | _ => agrees1 c
   end.
 
 Definition mismatches (cs : list case) : list N :=
@@ -203,7 +221,7 @@ Definition mined_ok (c : case) (s : sendres) (w : receiptres) : bool :=
   | _, _ => false
   end.
 
-Definition violation (c : case) : option string :=
+Definition violation1 (c : case) : option string :=
   match op c with
   | OpCheck addr a1 a2 =>
       let m := value_read c [a1; a2] (want_read c (spec_min (kind c)) []) in
@@ -238,6 +256,19 @@ Definition violation (c : case) : option string :=
   | _ => None
   end.
 
+Fixpoint first_violation (c : case) (steps : list (opk * (list effect * obsres))) : option string :=
+  match steps with
+  | [] => None
+  | st :: r => match violation1 (sub c st) with Some k => Some k | None => first_violation c r end
+  end.
+
+(* every step of a session must satisfy the property on its own requests and answers *)
+Definition violation (c : case) : option string :=
+  match op c with
+  | OpSession steps => first_violation c steps
+  | _ => violation1 c
+  end.
+
 Definition violations (cs : list case) : list (N * string) :=
   flat_map (fun c => match violation c with Some k => [(id c, k)] | None => [] end) cs.
 
@@ -245,6 +276,7 @@ Definition violations (cs : list case) : list (N * string) :=
 Definition nontrivial (cs : list case) : list N :=
   map id (filter (fun c => match op c, trace c with
                            | OpAbiPack _, _ | OpAbiUnpack _ _, _ => true
+                           | OpSession steps, _ => existsb (fun st => match fst (snd st) with [] => false | _ => true end) steps
                            | _, [] => false
                            | _, _ => true
                            end) cs).
